@@ -28,6 +28,11 @@ CLAIMED = {
     note="Bounds: labels <= 3 octets (quick), <= 5 (thorough); names, records and RDATA comparisons are added harness by harness (see evidence samples for what this run covered).",
     technique=KANI + "; algebraic laws + differential against an independent canonical-order model",
     ref="DESIGN.md §4 C04"),
+ "C05": dict(
+    text="Per record type: for every value within the stated field sizes the solver decides that compose_rdata, rdlen, compose_len_rdata and compose_canonical_rdata agree on length and content with an independent field-by-field layout, that parsing the composed octets gives back an equal value with nothing left over (name-free types), that unknown types are carried opaquely, and that the canonical form equals the wire form with exactly the embedded names lower-cased (name-bearing types, compose side).",
+    note="Types covered so far are listed in evidence samples (A, AAAA, DS, CDS, DNSKEY, CDNSKEY, HINFO, TXT, SSHFP, TLSA, OPENPGPKEY, NULL, unknown; compose side of MX, SRV, SOA, NS, CNAME, PTR, DNAME). Octet fields are 0..3 symbolic octets; embedded names have a concrete label structure with symbolic content. The parse side of name-bearing types goes through ParsedName::parse_ref, which CBMC cannot execute even on concrete input (DESIGN section 2), so 'wire -> value -> wire' for those types, SVCB, NSEC/NSEC3/RRSIG, NAPTR, IPSECKEY, OPT are outside the claim.",
+    technique=KANI + "; round trip + differential against an independent wire layout written in the harness",
+    ref="DESIGN.md §4 C05"),
 }
 
 NA = {
